@@ -29,12 +29,12 @@ pub fn knobs_for(rng: &mut Rng, seed: u64) -> Knobs {
     k
 }
 
-pub fn execute_h(sc: &Scenario, loss: LossMode, keep_log: bool) -> (Vec<Violation>, Outcome) {
+pub fn execute_h(sc: &Scenario, loss: LossMode, slack: u64, keep_log: bool) -> (Vec<Violation>, Outcome) {
     let mut ring = RingH::new(&sc.knobs);
     let mut out = Outcome::default();
     let viols;
     {
-        let mut d = Driver::new(&mut ring, sc.knobs.item_limit, 0, loss);
+        let mut d = Driver::new(&mut ring, sc.knobs.item_limit, 0, loss).with_slack(slack);
         d.keep_log = keep_log;
         d.run(sc);
         viols = std::mem::take(&mut d.violations);
@@ -85,7 +85,8 @@ impl Check for ModelCheck {
             }
         };
         let keep_log = case.data.get("log").is_some();
-        let (viols, mut out) = execute_h(&sc, LossMode::Strict, keep_log);
+        let slack = if self.id == "C05" { 0 } else { 1 };
+        let (viols, mut out) = execute_h(&sc, LossMode::Strict, slack, keep_log);
         let claims = self.claims;
         // debugging / defect confirmation: claim exactly one signature, whichever property it belongs to
         match std::env::var("VERIF_CLAIM_SIG") {
